@@ -248,8 +248,18 @@ func bfgs(f_ Objective, f ObjectiveInSitu, x0 Vector, H0 Matrix, epsilon Epsilon
       X2.VaddV(x1, P2)
       return f_(X2)
     }
-    // perform line search to find a new point x2
-    alpha, err := lineSearch.Run(phi, Float64Type, lineSearch.Parameters{1, 100})
+    // perform line search to find a new point x2, reject steps that
+    // violate the constraints
+    lineSearchArgs := []interface{}{lineSearch.Parameters{1, 100}}
+    if constraints.Value != nil {
+      lineSearchArgs = append(lineSearchArgs, lineSearch.Constraints{
+        func(alpha ConstScalar) bool {
+          t3.VmulS(p1, alpha)
+          t4.VaddV(x1, t3)
+          return constraints.Value(t4)
+        }})
+    }
+    alpha, err := lineSearch.Run(phi, Float64Type, lineSearchArgs...)
     // compute new position
     p2.VmulS(p1, alpha)
     x2.VaddV(x1, p2)
